@@ -58,16 +58,40 @@ def run(ctx: Ctx):
     for reg in sa.hooks.all_hook_functions():
         fn = reg.hook
         param = fn.args.args[0].arg
+        # names that (may) hold the input or a part of it: the parameter, locals assigned from such, loop variables over such
+        tainted = {param}
+        changed = True
+
+        def mentions(e):
+            return any(isinstance(n_, ast.Name) and n_.id in tainted for n_ in ast.walk(e))
+        while changed:
+            changed = False
+            for node in ast.walk(fn):
+                tgts, srcv = [], None
+                if isinstance(node, ast.Assign):
+                    tgts, srcv = node.targets, node.value
+                elif isinstance(node, (ast.For, ast.comprehension)):
+                    tgts, srcv = [node.target], node.iter
+                elif isinstance(node, ast.NamedExpr):
+                    tgts, srcv = [node.target], node.value
+                if srcv is not None and mentions(srcv):
+                    for t_ in tgts:
+                        for n_ in ast.walk(t_):
+                            if isinstance(n_, ast.Name) and n_.id not in tainted:
+                                tainted.add(n_.id)
+                                changed = True
         for node in ast.walk(fn):
             bad = None
             if isinstance(node, (ast.For, ast.comprehension)):
                 it = node.iter
-                if isinstance(it, ast.Call) and isinstance(it.func, ast.Attribute) and it.func.attr in ("keys", "items", "values"):
+                if isinstance(it, ast.Call) and isinstance(it.func, ast.Attribute) and it.func.attr in ("keys", "items", "values") \
+                        and mentions(it.func.value):
                     bad = f"iterates .{it.func.attr}() of a mapping"
             if isinstance(node, ast.Call) and isinstance(node.func, ast.Attribute) and \
                     node.func.attr in ("keys", "items", "values", "popitem") and dotted(node.func.value) == param:
                 bad = f"calls {param}.{node.func.attr}()"
-            if isinstance(node, ast.Compare) and any(isinstance(c, (ast.Dict, ast.DictComp)) for c in [node.left] + node.comparators):
+            if isinstance(node, ast.Compare) and any(isinstance(c, (ast.Dict, ast.DictComp)) for c in [node.left] + node.comparators) \
+                    and mentions(node):
                 bad = "compares with a dict display"
             ctx.check(bad is None, "no-mapping-iteration", f"hook={reg.hook_name}",
                       f"{reg.hook_name} {bad}: an undeclared property would be observed", P_HOOKS,
@@ -104,8 +128,33 @@ def _class_hooks(ctx: Ctx):
                      f"{ast.unparse(node.func)}: an undeclared property in that object raises TypeError instead of being ignored",
                      P_HOOKS, node.lineno)
         else:
-            raise AnalysisError(f"{P_HOOKS}:{reg.lineno}: a hand-written structure hook is registered for the class "
-                                f"{show(key)}; whether it ignores unknown keys is not decidable by this analysis")
+            # keyed access only: every occurrence of the parameter is the base of a constant-key subscript / .get(), the
+            # right operand of a `"k" in` test, an `is None` / isinstance operand; then no undeclared key is ever looked at
+            parents = {c_: p_ for p_ in ast.walk(fn) for c_ in ast.iter_child_nodes(p_)}
+            offending = None
+            for node in ast.walk(fn):
+                if not (isinstance(node, ast.Name) and node.id == param and isinstance(node.ctx, ast.Load)):
+                    continue
+                par = parents.get(node)
+                if isinstance(par, ast.Subscript) and par.value is node and isinstance(par.slice, ast.Constant) \
+                        and isinstance(par.slice.value, str):
+                    continue
+                if isinstance(par, ast.Attribute) and par.attr == "get" and isinstance(parents.get(par), ast.Call) \
+                        and parents[par].args and isinstance(parents[par].args[0], ast.Constant):
+                    continue
+                if isinstance(par, ast.Compare) and len(par.ops) == 1 and (
+                        (isinstance(par.ops[0], (ast.In, ast.NotIn)) and par.comparators[0] is node and isinstance(par.left, ast.Constant))
+                        or isinstance(par.ops[0], (ast.Is, ast.IsNot))):
+                    continue
+                if isinstance(par, ast.Call) and dotted(par.func) == "isinstance" and par.args and par.args[0] is node:
+                    continue
+                offending = par if par is not None else node
+                break
+            if offending is not None:
+                raise AnalysisError(f"{P_HOOKS}:{reg.lineno}: a hand-written structure hook is registered for the class "
+                                    f"{show(key)} and uses its input as a whole (`{ast.unparse(offending)[:60]}`); whether it "
+                                    "ignores unknown keys is not decidable by this analysis")
+            ctx.ok("class-hook-ignores-unknown-keys", {"hook": reg.hook_name, "class": show(key), "access": "by declared key only"})
     if n == 0:
         ctx.ok("class-hook-ignores-unknown-keys", {"class_keyed_hooks_for_attrs_classes": 0})
 
